@@ -373,7 +373,11 @@ func bytesEqTerm(a, b []value) sym {
 			}
 			continue
 		}
-		ts = append(ts, "(= "+lift(a[i]).term+" "+lift(b[i]).term+")")
+		ta, tb := lift(a[i]).term, lift(b[i]).term
+		if ta == tb {
+			continue
+		}
+		ts = append(ts, "(= "+ta+" "+tb+")")
 	}
 	return symAnd(ts)
 }
